@@ -13,8 +13,10 @@ def cargo_check(crate, toolchain=None, want_error=None):
     tgt = os.path.join(CACHE, 'witness-target')
     os.makedirs(tgt, exist_ok=True)
     # build from a scratch copy so that the path dependency follows VF_REPO (selftest on scratch trees)
-    cdir = os.path.join(CACHE, 'witness-src', crate)
+    # (one copy per process: several checks may run at the same time)
+    cdir = os.path.join(CACHE, 'witness-src', '%s-%d' % (crate, os.getpid()))
     shutil.rmtree(cdir, ignore_errors=True)
+    os.makedirs(os.path.dirname(cdir), exist_ok=True)
     shutil.copytree(src, cdir, ignore=shutil.ignore_patterns('target', 'Cargo.lock'))
     toml = open(os.path.join(cdir, 'Cargo.toml')).read()
     if 'arimaa' in toml:
@@ -28,6 +30,7 @@ def cargo_check(crate, toolchain=None, want_error=None):
     cmd = ['cargo'] + (['+' + toolchain] if toolchain else []) + ['check', '--offline', '--quiet']
     r = subprocess.run(cmd, cwd=cdir, env=env, stdout=subprocess.PIPE, stderr=subprocess.STDOUT, text=True)
     out = r.stdout
+    shutil.rmtree(cdir, ignore_errors=True)
     if want_error is None:
         return r.returncode == 0, out[-3000:]
     codes = set()
